@@ -746,6 +746,7 @@ func runTyped(c TCase, o *vh.Obs) *vh.Failure {
 	var hist []porcupine.Operation
 	var crashes []string
 	var wg sync.WaitGroup
+	refusals := 0
 	start := make(chan struct{})
 	names := []string{"a.txt", "b.txt"}
 	for ci, script := range c.Clients {
@@ -764,11 +765,28 @@ func runTyped(c TCase, o *vh.Obs) *vh.Failure {
 				}
 				var out string
 				var crashed any
+				refused := false
 				call := atomic.AddInt64(&clock, 1)
 				func() {
-					defer func() { crashed = recover() }()
+					defer func() {
+						if r := recover(); r != nil {
+							crashed = r
+						}
+					}()
 					switch in.kind {
 					case 0:
+						if op.Yield == 2 && in.param < 3 {
+							// a message the parameter has to refuse - for the point list one that is well-formed
+							// JSON and wrong only in its second element. A refused update is not part of the
+							// history: it must change nothing, which the reads around it decide.
+							pt, _ := json.Marshal(vector3.New(float64(run%1000)+0.25, float64(ci), float64(k)))
+							bad := [][]byte{[]byte(`5`), []byte(`"x"`), []byte(`[` + string(pt) + `,"oops",` + string(pt) + `]`)}[in.param]
+							if _, err := inst.UpdateParameter(pids[in.param], bad); err == nil {
+								crashed = fmt.Sprintf("UpdateParameter(%s) on parameter %d was accepted", bad, in.param)
+							}
+							refused = true
+							return
+						}
 						if _, err := inst.UpdateParameter(pids[in.param], msg); err != nil {
 							crashed = fmt.Sprintf("UpdateParameter(%s) returned %v", msg, err)
 						}
@@ -785,13 +803,21 @@ func runTyped(c TCase, o *vh.Obs) *vh.Failure {
 				if crashed != nil {
 					crashes = append(crashes, fmt.Sprintf("client %d op %d (%s): %v", ci, k, model.DescribeOperation(in, out), crashed))
 				}
-				hist = append(hist, porcupine.Operation{ClientId: ci, Input: in, Call: call, Output: out, Return: ret})
+				if refused {
+					refusals++
+				} else {
+					hist = append(hist, porcupine.Operation{ClientId: ci, Input: in, Call: call, Output: out, Return: ret})
+				}
 				mu.Unlock()
 			}
 		}(ci, script)
 	}
 	close(start)
 	wg.Wait()
+	if refusals > 0 {
+		o.Class("typed/refused-updates")
+		o.Count("typed-refused-updates", refusals)
+	}
 	describe := func() string {
 		sort.Slice(hist, func(i, j int) bool { return hist[i].Call < hist[j].Call })
 		var sb strings.Builder
